@@ -14,7 +14,9 @@ THEOREMS = ["Rink.Spec.C04.query_never_panics", "Rink.Spec.C04.evalQuery_noPanic
 
 def judge(text, impl, aux):
     if not aux or aux.get("k") != "q":
-        return None
+        # session bookkeeping lines (reset) are not inputs; a reset that got no answer (the worker was still
+        # being replaced) is not a verdict on Rink
+        return "ignore" if impl.split(" ")[0] in ("timeout", "abort", "panic") else None
     head = impl.split(" ")[0]
     if head == "panic":
         return "the implementation panics at %s" % (impl[6:] or "?")
@@ -22,6 +24,14 @@ def judge(text, impl, aux):
         return "the worker process died (abort / stack overflow)"
     if head == "timeout":
         if aux.get("class") == "expensive":
+            # the lexical class is only a bound: when the exact evaluator of the model produced the answer and
+            # it is small, the result is not astronomically large and the time-out counts
+            m = aux.get("_model", "")
+            import re as _re
+            if _re.search(r"ans|_", text, _re.I):
+                return "ignore"          # the previous answer may be huge; the model may have lost track of it
+            if m and not m.startswith("unsupported") and len(m) < 2000 and m.split(" ")[0] in ("number", "conv", "convnone", "def", "list", "duration", "err"):
+                return "no answer within the budget although the exact result is small (the model's answer: %s)" % m[:120]
             return "ignore"
         return "no answer within the budget for an input whose result is small"
     return None
@@ -80,7 +90,7 @@ def run(c):
     ]
     c.assumptions += [
         "query_never_panics covers eval_query and eval_expr of the model (Number-valued evaluation, conversions, unit lists, temperature conversions, definition display, units for, factorize); its two per-query hypotheses (no empty product node in the conversion target; alias expansion of a displayed name ends) are evaluated by the model driver on every line of the stream (`model-hypothesis-violated` would be a disagreement), its two database hypotheses by `rinkmodel ctxok`; dates, substances as values, search and rendering are outside the model (`unsupported`) and covered by the stream only",
-        "cheap / expensive is a lexical bound computed by the generator (harness/src/gen_totality.rs::classify): an input is expensive when it has two or more power-like operators (^, **, <<, >>, superscripts, exp, factorize), a number of four or more digits right after one of them or after an exponent marker or `digits` / `base`, or a power applied to the previous answer; only a time-out on a cheap input is a violation",
+        "cheap / expensive is a lexical bound computed by the generator (harness/src/gen_totality.rs::classify): an input is expensive when it has two or more power-like operators (^, **, <<, >>, superscripts, exp, factorize), a number of four or more digits right after one of them or after an exponent marker or `digits` / `base`, or a power applied to the previous answer; only a time-out on a cheap input is a violation - or on an expensive one whose exact answer the Lean model computed and found small (under 2000 characters)",
         "the budget is 3 s per input on a loaded machine; a time-out is re-run alone with 60 s before it counts",
         "the context is long-lived: sessions of 10-50 inputs share one Context (ans, the pinned clock), sessions are separated by `reset`",
     ]
